@@ -413,6 +413,9 @@ func (x *Exec) applyContract(fr *Frame, st *State, c *Contract, fn *ssa.Function
 		x.oblige(fr, st, "call.pre", name, labelOr(r.Label, ""), t, pos, r.Src)
 	}
 	// frame
+	if len(c.Callbacks) > 0 {
+		x.invokeCallbacks(st, c, fn, args)
+	}
 	if c.AssignsAll {
 		x.havocAll(st)
 	} else {
@@ -624,6 +627,15 @@ func (x *Exec) evalClause(fr *Frame, c Clause, cur, old *State, extra map[string
 		}
 		vars[fv.Name()] = v
 	}
+	for i, fv := range fr.fn.FreeVars {
+		// post_<name>: value of a captured-by-reference variable in the state the clause is evaluated in
+		v := fr.bind[i]
+		if v.K == KPtr {
+			if pt, ok := fv.Type().(*types.Pointer); ok {
+				vars["post_"+fv.Name()] = x.load(cur, v.P, pt.Elem())
+			}
+		}
+	}
 	for k, v := range extra {
 		if _, isParam := vars[k]; isParam && k == "result" {
 			continue // a parameter called "result" keeps its meaning
@@ -664,7 +676,98 @@ func (x *Exec) checkEnsures(fr *Frame, st *State, vals []*Value, pos token.Pos) 
 		t := x.evalClause(fr, e, st, fr.entry, extra)
 		x.oblige(fr, st, "ensures", "", e.Label, t, pos, e.Src)
 	}
+	// stable predicates of a closure: true before the call implies true after it
+	for _, e := range c.Stable {
+		pre := x.stableTerm(fr, e, fr.entry)
+		post := x.stableTerm(fr, e, st)
+		x.oblige(fr, st, "ensures", "", "stable:"+e.Label, Implies(pre, post), pos, e.Src)
+	}
 	x.checkFrame(fr, st, pos)
+}
+
+// stableTerm evaluates a `stable` predicate of closure frame fr with the captured variables read in state s.
+func (x *Exec) stableTerm(fr *Frame, e Clause, s *State) *Term {
+	return x.stableTermBind(fr.fn, fr.bind, e, s, fr.contractOrEmpty())
+}
+
+func (x *Exec) stableTermBind(fn *ssa.Function, bind []*Value, e Clause, s *State, c *Contract) *Term {
+	vars := map[string]*Value{}
+	for i, fv := range fn.FreeVars {
+		if i >= len(bind) {
+			break
+		}
+		v := bind[i]
+		if v.K == KPtr {
+			if pt, ok := fv.Type().(*types.Pointer); ok {
+				vars[fv.Name()] = x.load(s, v.P, pt.Elem())
+				continue
+			}
+		}
+		vars[fv.Name()] = v
+	}
+	env := &SpecEnv{x: x, vars: vars, cur: s, old: s, pkg: x.pkgOfFn(fn)}
+	return x.guardedEval(func() *Term { return env.evalBool(e.E) }, c, e)
+}
+
+// invokeCallbacks models an extern that calls a callback argument any number of times: when the
+// callback is a closure of this repository with a contract, the variables it captures by
+// reference become arbitrary, except that each of its `stable` predicates that held before
+// still holds; otherwise everything reachable is havocked.
+func (x *Exec) invokeCallbacks(st *State, c *Contract, fn *ssa.Function, args []*Value) {
+	names := c.Params
+	for _, cbName := range c.Callbacks {
+		idx := -1
+		for i, n := range names {
+			if n == cbName {
+				idx = i
+			}
+		}
+		if idx < 0 || idx >= len(args) {
+			x.havocAll(st)
+			continue
+		}
+		fv := args[idx]
+		if (fv.K != KFunc || fv.Fn == nil) && x.rootFrame != nil && x.rootFrame.contract != nil && x.rootFrame.contract.SelfCallback && x.rootFrame.fn.Parent() != nil {
+			// recursive closure (`var f func..; f = func.. { .. g(f) .. }`): the captured function variable holds this closure
+			x.trusted["selfcallback: the function value "+funcDisplayName(x.rootFrame.fn)+" passes on is the closure itself (the variable it captures is assigned exactly once, to this closure)"] = true
+			fv = &Value{K: KFunc, T: fv.T, Fn: x.rootFrame.fn, Bind: x.rootFrame.bind}
+		}
+		if fv.K == KFunc && fv.Fn == nil && fv.Term != nil && fv.Term.Op == "const" {
+			if cv, ok := x.closures[fv.Term.Name]; ok {
+				fv = cv // a closure created in this execution, read back from a variable
+			}
+		}
+		if fv.K != KFunc || fv.Fn == nil {
+			x.unmod["callback of unknown identity passed to "+c.Name] = true
+			x.havocAll(st)
+			continue
+		}
+		cc := x.contractFor(fv.Fn)
+		if cc == nil {
+			x.unmod["callback "+funcDisplayName(fv.Fn)+" has no contract"] = true
+			x.havocAll(st)
+			continue
+		}
+		pre := st.clone()
+		var pres []*Term
+		for _, e := range cc.Stable {
+			pres = append(pres, x.stableTermBind(fv.Fn, fv.Bind, e, pre, cc))
+		}
+		for i, b := range fv.Bind {
+			if b.K == KPtr && i < len(fv.Fn.FreeVars) {
+				if pt, ok := fv.Fn.FreeVars[i].Type().(*types.Pointer); ok {
+					nv := x.freshValue("cb_"+fv.Fn.FreeVars[i].Name(), pt.Elem(), st.guard)
+					x.boundRefs(nv, x.allocNow())
+					x.store(st, b.P, nv)
+				}
+			}
+		}
+		for k, e := range cc.Stable {
+			post := x.stableTermBind(fv.Fn, fv.Bind, e, st, cc)
+			x.assume(st, Implies(pres[k], post))
+		}
+		x.trusted["callbacks passed to "+c.Name+" only touch what they capture (their `stable` predicates are proved on the closure body)"] = true
+	}
 }
 
 // checkFrame: every heap location not covered by `assigns` keeps its entry value, except in
